@@ -216,6 +216,58 @@ func init() {
 		Rules: []func(*Ctx){func(c *Ctx) {
 			c.describe("C14.a", "dom: the retention filter precedes the store on ingest (see C01.b)")
 			ruleC01b(c, "C14.a")
-		}, func(c *Ctx) { ruleC14b(c, "C14.b") }, func(c *Ctx) { ruleC14c(c, "C14.c") }, func(c *Ctx) { ruleC07b(c, "C14.d") }},
+		}, func(c *Ctx) { ruleC14b(c, "C14.b") }, func(c *Ctx) { ruleC14c(c, "C14.c") }, func(c *Ctx) { ruleC07b(c, "C14.d") }, func(c *Ctx) { ruleMergeExpiry(c, "C14.e") }},
 	})
+}
+
+// ruleMergeExpiry: Sequence.Merge drops the older operand as a whole only when
+// even its NEWEST period is older than the retention boundary.
+func ruleMergeExpiry(c *Ctx, rule string) {
+	c.describe(rule, "flow: in Sequence.Merge the test that discards the older operand altogether compares that operand's newest time (the result of Until(), after the later/earlier swap) with truncateBefore — not a time derived from it by period arithmetic (its oldest end), which would discard periods still inside the retention window")
+	mg := c.need(rule, "(z/encoding.Sequence).Merge")
+	if mg == nil {
+		return
+	}
+	var tb *ssa.Parameter
+	for _, p := range mg.Params {
+		if p.Name() == "truncateBefore" {
+			tb = p
+		}
+	}
+	if tb == nil {
+		for _, p := range mg.Params {
+			if typeStr(p.Type()) == "time.Time" {
+				tb = p
+			}
+		}
+	}
+	isRet := func(b *ssa.BasicBlock) bool {
+		if len(b.Instrs) == 0 {
+			return false
+		}
+		_, ok := b.Instrs[len(b.Instrs)-1].(*ssa.Return)
+		return ok
+	}
+	n := 0
+	for _, ci := range findIfs(mg, func(v ssa.Value) bool {
+		call, ok := v.(*ssa.Call)
+		if !ok || !isCall(call, "(time.Time).Before") || tb == nil {
+			return false
+		}
+		return dependsOn(call.Call.Args[1], func(x ssa.Value) bool { return x == ssa.Value(tb) })
+	}) {
+		// only tests whose true edge returns straight away (the early-out)
+		if !isRet(ci.succFor(true)) {
+			continue
+		}
+		n++
+		x := ci.v.(*ssa.Call).Call.Args[0]
+		fromUntil := dependsOn(x, func(v ssa.Value) bool { cl, ok := v.(*ssa.Call); return ok && isCall(cl, "(z/encoding.Sequence).Until") })
+		viaArith := dependsOn(x, func(v ssa.Value) bool {
+			cl, ok := v.(*ssa.Call)
+			return ok && (isCall(cl, "(time.Time).Add") || isCall(cl, "(z/encoding.Sequence).AsOf"))
+		})
+		c.check(rule, "Sequence.Merge discards the older operand only if its newest period is expired", ci.i.Pos(), fromUntil && !viaArith, "the compared time is the operand's Until()", "the early return that discards the older operand compares a time derived by period arithmetic (the operand's oldest end) with truncateBefore: an on-disk series that merely has an expired tail is dropped whole when its key gets new data, live periods included")
+	}
+	c.floor(rule, "expiry early-outs in Sequence.Merge", n, 1)
 }
